@@ -29,7 +29,10 @@ CONFIG = {
                    'several hash seeds, i.e. several tableau construction '
                    'orders) is judged against refsem.star; exclusions are '
                    'certified by concrete lassos, inclusions cross-checked '
-                   'by bounded lasso enumeration.'),
+                   'by bounded lasso enumeration.'
+                   ' A fixed block of hostile formulas runs under every hash seed'
+                   ' of the run (8 quick / 16 thorough); random cases vary state'
+                   ' and atom names.'),
     'level_note': ('Trusted base: vmon/refsem.py (product construction), '
                    'vmon/pathsem.py (lasso evaluator) -- they must agree for '
                    'a case to be judged; neutral forms; CPython.'),
